@@ -180,3 +180,37 @@ def memory_table():
     check("an_inspection_after_further_stores_shows_the_new_values", ok2)
     rows2 = sim.get_data_memory_entries()
     check("so_does_the_table", [r[0][0] for r in rows2] == words2 and all_of([rows2[i][1] == t2[words2[i]] for i in range(len(words2))]))
+
+
+@unit("C17/ToySimulation.get_memory_table_entries")
+def toy_memory_table():
+    """the TOY memory table lists exactly the written words, at their true addresses in ascending order, each in the four
+    16-bit representations of its current value -- also after a further store"""
+    sim = ToySimulation()
+    m = sim.state.memory
+    sim.state.max_pc = 1
+    cells = {}
+    for a in (9, 0, 4095, 1, 300):          # insertion order is not address order
+        cells[a] = sym_fixed("c%d" % a, UInt16)
+        m.memory_file[a] = cells[a]
+    rows = sim.get_memory_table_entries()
+    order = sorted(cells)
+    check("rows_ascending_with_true_addresses", [r[0][0] for r in rows] == order and all_of([rows[i][0][1] == "0x" + format(order[i], "03X") for i in range(len(order))]))
+    ok = True
+    for i, a in enumerate(order):
+        e = expected(int(cells[a]), 16)
+        ok = ok & (rows[i][1][0] == e[0]) & (rows[i][1][1] == e[1]) & (rows[i][1][2] == e[2]) & (rows[i][1][3] == e[3])
+    check("four_representations_of_the_current_values", ok)
+    check("words_behind_the_program_are_not_shown_as_instructions", all_of([rows[i][2] == "-" for i, a in enumerate(order) if a > 1]))
+    nv = sym_fixed("stored", UInt16)
+    m.write_halfword(300, nv)
+    m.write_halfword(17, nv)
+    cells[300] = nv
+    cells[17] = nv
+    rows2 = sim.get_memory_table_entries()
+    order2 = sorted(cells)
+    ok2 = [r[0][0] for r in rows2] == order2
+    for i, a in enumerate(order2):
+        e = expected(int(cells[a]), 16)
+        ok2 = ok2 & (rows2[i][1][0] == e[0]) & (rows2[i][1][1] == e[1]) & (rows2[i][1][2] == e[2]) & (rows2[i][1][3] == e[3])
+    check("a_later_inspection_shows_later_stores", ok2)
